@@ -257,6 +257,24 @@ fn judge_known(ncom: usize, facts: &[Fact], text: &str, db: &str, dbpath: &std::
                 for qd in QD {
                     conversions += 1;
                     let exp = refprice(ncom, facts, from, to, qd);
+                    // a ZERO quantity is converted like any other: no chain, no conversion ("if no chain exists the conversion
+                    // fails"); with a chain the result is zero
+                    {
+                        conversions += 1;
+                        let got0 = l.eval(ctx, &format!("0 {}", NAMES[from]), &EvalContext { date: oka::date(2024, 1, qd), exchange: Some(NAMES[to].to_string()) });
+                        let q0 = format!("0 {} -> {} as of 2024/01/{:02}", NAMES[from], NAMES[to], qd);
+                        match (&exp, &got0) {
+                            (None, Err(_)) => must += 1,
+                            (None, Ok(a)) => return Outcome::violation("zero-quantity/converted-without-any-chain", format!("{}: no chain of prices dated on or before the query date exists, but got {}", q0, a.as_inline_display())),
+                            (Some(_), Err(e)) => return Outcome::violation("zero-quantity/conversion-failed-although-chain-exists", format!("{}: got error {}", q0, e)),
+                            (Some(_), Ok(a)) => {
+                                must += 1;
+                                if oka::amount_to_decmap(a).iter().any(|(c, v)| !v.is_zero() || c != NAMES[to]) {
+                                    return Outcome::violation("zero-quantity/conversion-value", format!("{}: got {}", q0, a.as_inline_display()));
+                                }
+                            }
+                        }
+                    }
                     let got = l.eval(ctx, &format!("2 {}", NAMES[from]), &EvalContext { date: oka::date(2024, 1, qd), exchange: Some(NAMES[to].to_string()) });
                     let q = format!("2 {} -> {} as of 2024/01/{:02}", NAMES[from], NAMES[to], qd);
                     match (&exp, &got) {
